@@ -1353,12 +1353,12 @@ class Mesh:
         if isinstance(nodes, tuple):
             # the vertex at the given point, up to a millionth of the shortest
             # edge (an absolute tolerance depends on the unit of length) but
-            # not below the round-off of the coordinates
-            tol = max(1e-6 * self._shortest_edge(),
-                      8 * np.finfo(np.float64).eps * np.abs(self.p).max())
+            # not below the round-off of the coordinates of that point
+            x0 = np.array(list(nodes), dtype=np.float64)[:, None]
+            tol = np.maximum(1e-6 * self._shortest_edge(),
+                             4 * np.finfo(np.float64).eps * np.abs(x0))
             return self.normalize_nodes(
-                lambda x: np.linalg.norm(x - np.array(list(nodes))[:, None],
-                                         axis=0) < tol
+                lambda x: (np.abs(x - x0) <= tol).all(axis=0)
             )
         if isinstance(nodes, (int, np.integer)):
             return np.array([nodes])
